@@ -283,7 +283,7 @@ def history(ctx, seed, maxsteps):
 
 def run(ctx):
     n = 0
-    nh = 400 if ctx.tier == 'quick' else 8000
+    nh = 400 if ctx.tier == 'quick' else 40000
     maxsteps = 12 if ctx.tier == 'quick' else 40
     for j in range(nh):
         seed = f'{ctx.seed}:{ctx.shard}:h{j}'
